@@ -10,6 +10,7 @@ op = {"id", "kind", "service", "method", "form", "request", "kwargs", "call", "s
 (code, spec, scenario): replaying the scenario reproduces the history exactly.
 """
 import asyncio
+import json
 
 from google.api_core import exceptions as core_exceptions
 from google.api_core import retry as retries
@@ -91,6 +92,7 @@ class Run:
             for op in a["ops"]:
                 self.ops[op["id"]] = op
         self.sim = simgrpc.Sim(None)
+        self.sim.numeric_enums = bool((world.spec.get("options") or {}).get("rest-numeric-enums"))
         self.server = server_factory(self)
         self.sim.server = self.server
         self.clients = {}
@@ -681,20 +683,24 @@ def scripted_server(run):
         if o.get("code"):
             out["code"] = o["code"]
             return out
-        sm = run.world.rpc.get(call["path"])
-        if sm is None:
-            out["code"] = "UNIMPLEMENTED"
-            return out
-        _, m, _ = sm
+        if call.get("tr") == "rest":
+            _, _, m = find_method(run.world.spec, op["service"], op["method"])
+        else:
+            sm = run.world.rpc.get(call["path"])
+            if sm is None:
+                out["code"] = "UNIMPLEMENTED"
+                return out
+            _, m, _ = sm
         if "items" in o:
-            out["items"] = [values.to_dynamic(codec, m["output"], v).SerializeToString(deterministic=True) for v in o["items"]]
+            out["msgs"] = [values.to_dynamic(codec, m["output"], v) for v in o["items"]]
             out["item_lat"] = o.get("item_lat") or []
+            out["chunks"] = o.get("chunks") or []
             if o.get("cut"):
                 out["cut"] = o["cut"]
         elif "reply_hex" in o:
             out["reply"] = bytes.fromhex(o["reply_hex"])
         else:
-            out["reply"] = values.to_dynamic(codec, m["output"], o.get("reply") or {}).SerializeToString(deterministic=True)
+            out["msg"] = values.to_dynamic(codec, m["output"], o.get("reply") or {})
         return out
     return serve
 
